@@ -11,7 +11,12 @@ func main() {
 	prop := flag.String("prop", "", "property id")
 	out := flag.String("out", "", "summary file")
 	replay := flag.String("replay", "", "replay file")
+	c17child := flag.Bool("c17child", false, "run C17 scenarios from stdin (child process)")
 	flag.Parse()
+	if *c17child {
+		concChildMain()
+		return
+	}
 	if *replay != "" {
 		os.Exit(runReplay(*prop, *replay))
 	}
@@ -36,6 +41,8 @@ func main() {
 		genC15(r)
 	case "C18":
 		genC18(r)
+	case "C17":
+		genC17(r)
 	case "C02":
 		genC02(r)
 	case "C01", "C07", "C13":
